@@ -1276,6 +1276,13 @@ impl SendSignal for VirtualSystem {
                 Pid(raw_pid) if raw_pid >= 0 => {
                     let mut state = self.state.borrow_mut();
                     match state.processes.get_mut(&target) {
+                        // A terminated process that has been waited for no
+                        // longer exists.
+                        Some(process)
+                            if !process.state().is_alive() && !process.state_has_changed() =>
+                        {
+                            Err(Errno::ESRCH)
+                        }
                         Some(process) => {
                             if let Some(signal) = signal {
                                 let result = process.raise_signal(signal);
